@@ -415,3 +415,98 @@ func c20MarshalParts(doc *openapi3.T) error {
 	}
 	return first
 }
+
+// Shared targets (spec/RefShare.tla): two references, from sites of kinds K1 and K2, to the same external file.
+type c20sShare struct {
+	K1      string `json:"k1"`
+	K2      string `json:"k2"`
+	Content string `json:"content"`
+	Frag    string `json:"frag"`
+	Spell   string `json:"spell"` // how the second reference spells the file name: "plain" / "dotslash"
+}
+
+// c20sBuild returns the root document and writes shared.json into dir.
+func c20sBuild(sh c20sShare, dir string) any {
+	refFor := func(kind string, second bool) any {
+		file := "shared.json"
+		if second && sh.Spell == "dotslash" {
+			file = "./shared.json"
+		}
+		if sh.Frag == "whole" {
+			return map[string]any{"$ref": file}
+		}
+		if kind == "pathItem" {
+			return map[string]any{"$ref": file + "#/paths/~1x"}
+		}
+		return map[string]any{"$ref": file + "#/components/" + c20gSection[kind] + "/X"}
+	}
+	var shared any
+	if sh.Frag == "whole" {
+		shared = c20gTemplate(sh.Content, 0)
+	} else {
+		comps := map[string]any{}
+		for kind, sect := range c20gSection {
+			comps[sect] = map[string]any{"X": c20gTemplate(kind, 0)}
+		}
+		shared = map[string]any{"openapi": "3.0.3", "info": map[string]any{"title": "shared", "version": "1"},
+			"paths": map[string]any{"/x": c20gTemplate("pathItem", 0)}, "components": comps}
+	}
+	b, _ := json.Marshal(shared)
+	os.WriteFile(filepath.Join(dir, "shared.json"), b, 0o644)
+
+	paths := map[string]any{}
+	get := map[string]any{"operationId": "useOp", "responses": map[string]any{}}
+	post := map[string]any{"responses": map[string]any{"200": map[string]any{"description": "d"}}}
+	usePost := false
+	for i, kind := range []string{sh.K1, sh.K2} {
+		r := refFor(kind, i == 1)
+		code := fmt.Sprintf("20%d", i+1)
+		resp := map[string]any{"description": "d"}
+		get["responses"].(map[string]any)[code] = resp
+		switch kind {
+		case "schema":
+			resp["content"] = map[string]any{"application/json": map[string]any{"schema": r}}
+		case "example":
+			resp["content"] = map[string]any{"application/json": map[string]any{"examples": map[string]any{"e": r}}}
+		case "header":
+			resp["headers"] = map[string]any{"X-U": r}
+		case "link":
+			resp["links"] = map[string]any{"l": r}
+		case "response":
+			get["responses"].(map[string]any)[code] = r
+		case "parameter":
+			ps, _ := get["parameters"].([]any)
+			get["parameters"] = append(ps, r)
+		case "requestBody":
+			if i == 0 {
+				get["requestBody"] = r
+			} else {
+				post["requestBody"] = r
+				usePost = true
+			}
+		case "callback":
+			cbs, _ := get["callbacks"].(map[string]any)
+			if cbs == nil {
+				cbs = map[string]any{}
+				get["callbacks"] = cbs
+			}
+			cbs[fmt.Sprintf("cb%d", i+1)] = r
+		case "pathItem":
+			paths[fmt.Sprintf("/use%d", i+1)] = r
+		default:
+			panic("harness: c20 share kind " + kind)
+		}
+	}
+	item := map[string]any{"get": get}
+	if usePost {
+		item["post"] = post
+	}
+	paths["/use"] = item
+	root := map[string]any{"openapi": "3.0.3", "info": map[string]any{"title": "root", "version": "1"}, "paths": paths}
+	rb, _ := json.Marshal(root)
+	dec := json.NewDecoder(strings.NewReader(string(rb)))
+	dec.UseNumber()
+	var v any
+	dec.Decode(&v)
+	return v
+}
